@@ -218,6 +218,16 @@ PROPS = {
         rule="case i: kind i mod 11, setting (i div 11) mod 7, 0-17 elements from boundary pools (powers of two +-1, all-ones, sign boundary), random patterns, float specials (+-0, inf, NaN kinds, subnormals, bfloat16 subnormals); one third in chunked form; distinct by kind+setting+elements",
         trusted_base=COMMON_TB + ["Go fmt verbs and strconv.ParseInt/ParseUint are modelled by hand (CE/Cte/ArrFmt.lean) and tied by the CTE.ARRFMT / CTE.ARRPARSE correspondence"],
     ),
+    "C24": dict(
+        claim="Lean reference semantics of CTE literals written from the property text (CE/Cte/Lit.lean): integers in base 2/8/10/16 with '_' separators and sign, decimal and hexadecimal floats as exact rationals (negative zero kept), specials, typed-array elements in every base with the range check of the element type (float kinds: exactly representable values and overflow), strings under the escape rules (named escapes, \\[hex] scalar values only, line continuations, verbatim sequences). "
+              "Theorems: separators_are_transparent (a separated digit string denotes the positional reading of its digits: what the decoder computes after deleting '_'), digitsValue_natDigits (the semantics reads the standard spelling of n in any base 2..16 with any number of leading zeros as n; built on the digit lemmas of C25), leading_zeros_do_not_change_base. "
+              "Harness: generated spellings (all prefixes and letter cases, separators, leading zeros, boundary magnitudes 2^k+-1 up to 2^100, exponents up to 1100, hex mantissas up to 40 digits, every escape kind, code points incl. surrogates and > 10FFFF, verbatim sequences with ASCII / non-ASCII sentinels and empty bodies, array elements around every range boundary) decoded by the real decoder with rules and compared with the semantics by the Lean driver (LIT.NUM, LIT.ELEM, LIT.STR)",
+        note="partial: the listener functions (ExitValueInt/ExitValueFloat/parse*Element/escape handlers) are not modelled statement by statement; strconv / math/big / apd parsing is external, so the equality decoder = semantics is decided by the oracle on every run, not by a theorem. Float array elements that are not exactly representable are rounded by strconv: not judged (skipped lines are counted). Six defects found by this check were repaired (fixes 582acb1, daf46e2, b97377c, e566e43)",
+        level="proof", n_quick=16000, n_thorough=800000, shards=16,
+        lean_modules=["CE.Props.C24", "CE.Cte.Digits"],
+        rule="case i mod 4: integer literal / float literal / one-element typed array (11 kinds x header bases) / quoted string of 0-6 segments; distinct by document text",
+        trusted_base=COMMON_TB + ["CE/Cte/Lit.lean is the reading of the property text and of the CTE specification (reference parser)"],
+    ),
     # NEW-ENTRIES-ABOVE
 }
 
